@@ -675,6 +675,15 @@ func params(idx int) func(w *worker) {
 			fundBig("sum-wraps-to-zero", []rhpx.Deposit{{Account: acctA, Amount: two127}, {Account: acctB, Amount: two127}}, pays(cur(0)))
 			fundBig("sum-wraps-same-account", []rhpx.Deposit{{Account: acctA, Amount: maxC}, {Account: acctA, Amount: cur(8)}}, pays(cur(7)))
 			fundBig("three-deposits-wrap", []rhpx.Deposit{{Account: acctA, Amount: two127}, {Account: acctB, Amount: cur(5)}, {Account: acctA, Amount: two127}}, pays(cur(5)))
+			// a PREFIX of the batch overflows, the last addition does not: an overflow flag that is only
+			// looked at after the loop sees nothing
+			sc := types.Siacoins(1)
+			fundBig("prefix-wraps-then-one-siacoin", []rhpx.Deposit{{Account: acctA, Amount: two127}, {Account: acctB, Amount: two127}, {Account: acctA + 2, Amount: sc}}, pays(sc))
+			fundBig("prefix-wraps-same-account", []rhpx.Deposit{{Account: acctA, Amount: two127}, {Account: acctA, Amount: two127}, {Account: acctA, Amount: cur(9)}}, pays(cur(9)))
+			fundBig("prefix-wraps-at-the-maximum", []rhpx.Deposit{{Account: acctA, Amount: maxC}, {Account: acctB, Amount: cur(1)}, {Account: acctA + 2, Amount: cur(4)}, {Account: acctB, Amount: cur(6)}}, pays(cur(10)))
+			fundBig("prefix-wraps-in-the-middle", []rhpx.Deposit{{Account: acctB, Amount: cur(3)}, {Account: acctA, Amount: two127}, {Account: acctA + 2, Amount: two127}, {Account: acctB, Amount: cur(2)}, {Account: acctA, Amount: cur(1)}}, pays(cur(6)))
+			fundBig("prefix-wraps-twice", []rhpx.Deposit{{Account: acctA, Amount: maxC}, {Account: acctB, Amount: maxC}, {Account: acctA + 2, Amount: maxC}, {Account: acctA, Amount: cur(10)}}, pays(cur(7)))
+			fundBig("prefix-wraps-honest-signature", []rhpx.Deposit{{Account: acctA, Amount: two127}, {Account: acctB, Amount: two127}, {Account: acctA + 2, Amount: sc}}, rhpx.Honest)
 			fundBig("sum-wraps-honest-signature", []rhpx.Deposit{{Account: acctA, Amount: two127}, {Account: acctB, Amount: two127.Add(cur(1))}}, rhpx.Honest)
 			fundBig("largest-amount", []rhpx.Deposit{{Account: acctA, Amount: maxC}}, rhpx.Honest)
 			fundBig("largest-total", []rhpx.Deposit{{Account: acctA, Amount: maxC.Sub(cur(1))}, {Account: acctB, Amount: cur(1)}}, rhpx.Honest)
